@@ -13,6 +13,7 @@ from c06 import spell_variant
 PID = "C17"
 E = apirec.enc
 _CWD = None
+_STALE = False
 
 
 def _scratch_cwd():
@@ -30,6 +31,15 @@ def _scratch_cwd():
         if not os.path.exists(nm):
             with open(nm, "w") as f:
                 f.write("bystander\n")
+    # stale reports of an earlier session that are not valid UTF-8 (re-saved as UTF-16 / cut off inside a multi-byte character):
+    # a report request replaces them - it has no business reading them
+    global _STALE
+    if not _STALE:
+        _STALE = True
+        with open("cm_colors_quick_report.html", "wb") as f:
+            f.write("<html>old \u2192 report</html>".encode("utf-16"))
+        with open("cm_colors_bulk_report.html", "wb") as f:
+            f.write("<html>old ".encode("utf-8") + b"\xe2\x86")
     return _CWD
 
 
@@ -64,8 +74,12 @@ def _case(job):
     if vis and seed % 3 == 0:
         # the working directory changes between constructing the pair and asking for the report: "the working directory" is
         # the one at the time of the call
-        ops.append(["chdir", "b"])
+        # (the other directory's path contains square brackets and a slash between them: ".../reports[/v2]" - text that a
+        #  console-markup renderer would take for a closing tag)
+        ops.append(["chdir", "b" if seed % 2 else "reports[/v2]"])
         ops.append(["fix", 1, m, vr, show, save])
+        if save:
+            ops.append(["bulk", [[E(text), E(bg), large]], m, vr, True, "list"])
         ops.append(["chdir", "a"])
     ents = [[E(text), E(bg), large], [E("#777777"), E("#ffffff"), True], [E("bogus"), E("#fff")], [E(text), E(bg), large],
             [E(list(a)), E(list(b))], [E([a[0], a[1], a[2], 0.5]), E(bg)]]
